@@ -65,6 +65,12 @@ def psd_layouts(d, ctx):
     normalize = d.int(0, 3) != 0
     rng = d.rng()
     x = gen.cnormal(rng, (*lead, D, T)) * d.log10(-3, 3)
+    xdt = d.choice(['complex128', 'complex128', 'complex128', 'complex64', 'float64'])
+    if xdt == 'complex64':
+        x = x.astype(np.complex64)
+    elif xdt == 'float64':
+        x = np.ascontiguousarray(x.real)
+    rt = 1e-5 if xdt == 'complex64' else 1e-10
     n = nl + 2
     pos_x, layout = _place(d, nl, ['sensor', 'time']) if mode != 'plain' else \
         ({'sensor': nl, 'time': nl + 1}, 'default')
@@ -100,6 +106,9 @@ def psd_layouts(d, ctx):
                 m = np.moveaxis(rng.dirichlet(np.ones(K), size=(*lead, T)), -1, -2)
             else:
                 m = rng.uniform(0, 1, size=mshape)
+        if mkind in ('float', 'posterior', 'sparse') and d.int(0, 3) == 0:
+            m = m.astype(np.float32)
+            rt = max(rt, 1e-5)
         if mode == 'plain':
             M = m
         else:
@@ -118,7 +127,8 @@ def psd_layouts(d, ctx):
                  layout=layout, kwargs=kw, x_shape=X.shape,
                  mask_shape=None if M is None else M.shape)
     ctx.label(f'mask={mode}', f'kind={mkind}', f'layout={layout}',
-              f'normalize={normalize}', f'nlead={nl}')
+              f'normalize={normalize}', f'nlead={nl}', f'x={xdt}',
+              'mask=float32' if (m is not None and m.dtype == np.float32) else 'mask=other')
     X_in = np.array(X)
     M_in = None if M is None else np.array(M)
     X_in.setflags(write=False)
@@ -134,30 +144,31 @@ def psd_layouts(d, ctx):
         ref = np.empty((*lead, K, D, D), dtype=np.complex128)
         for idx in np.ndindex(*lead):
             for k in range(K):
-                ref[idx][k] = ob.psd(x[idx], m[idx][k].astype(float), normalize)
+                ref[idx][k] = ob.psd(x[idx].astype(np.complex128),
+                                     m[idx][k].astype(float), normalize)
         spos_n = spos
         if spos_n < n - 2:
             ref = np.moveaxis(ref, nl, spos_n)
     else:
         ref = np.empty((*lead, D, D), dtype=np.complex128)
         for idx in np.ndindex(*lead):
-            ref[idx] = ob.psd(x[idx], None if m is None else m[idx].astype(float),
-                              normalize)
+            ref[idx] = ob.psd(x[idx].astype(np.complex128),
+                              None if m is None else m[idx].astype(float), normalize)
     require(np.shape(got) == ref.shape, 'psd-shape',
             f'{np.shape(got)} expected {ref.shape} (x {X.shape}, mask '
             f'{None if M is None else M.shape}, {kw})')
     scale = float(np.max(np.abs(ref))) if ref.size else 0.0
     require_close(got, ref, 'psd-is-mask-weighted-mean-outer-product',
-                  atol=1e-10 * max(scale, 1e-300) + 1e-300,
+                  atol=rt * max(scale, 1e-300) + 1e-300,
                   what=f'mask={mode}/{mkind} {kw}', mask=mode)
     require(np.all(np.isfinite(got)), 'psd-finite', '')
     herm = np.max(np.abs(got - np.swapaxes(got.conj(), -1, -2)))
-    require(herm <= 1e-12 * max(scale, 1e-300), 'psd-hermitian', f'{herm:.3e}')
+    require(herm <= max(1e-12, rt * 1e-2) * max(scale, 1e-300), 'psd-hermitian', f'{herm:.3e}')
     if mkind == 'zero':
         require(np.all(got == 0), 'zero-mask-gives-zero-matrix', '')
     ev = np.linalg.eigvalsh((got + np.swapaxes(got.conj(), -1, -2)) / 2)
     tr = np.trace(got, axis1=-1, axis2=-2).real
-    require(np.all(ev.min(axis=-1) >= -1e-12 * np.maximum(tr, 1e-300) - 1e-300),
+    require(np.all(ev.min(axis=-1) >= -max(1e-12, rt) * np.maximum(tr, 1e-300) - 1e-300),
             'psd-positive-semidefinite', f'min eigenvalue {ev.min():.3e}')
     # invariance to positive rescaling of a normalised mask
     if M is not None and normalize and mkind in ('float', 'posterior') and \
@@ -167,7 +178,7 @@ def psd_layouts(d, ctx):
         M2 = m2 if mode == 'plain' else np.moveaxis(m2, [nl, nl + 1], [spos, tpos])
         got2 = ctx.lib(f, X, M2, **kw)
         require_close(got2, got, 'psd-invariant-to-mask-scale',
-                      atol=1e-9 * max(scale, 1e-300))
+                      atol=max(1e-9, 10 * rt) * max(scale, 1e-300))
         ctx.label('mask-scale-checked')
     ctx.nontrivial(mode == 'source' and K >= 2 and (
         layout != 'default' or 'source_dim' in kw or mkind == 'bool'
